@@ -6,6 +6,7 @@ import (
 	"context"
 	"fmt"
 	"io"
+	"net"
 	"sync"
 	"time"
 
@@ -18,6 +19,10 @@ import (
 // vfRunClient drives the exported reference client with one request and
 // returns its response.
 func vfRunClient(req *conformancev1.ClientCompatRequest) (*conformancev1.ClientCompatResponse, error) {
+	// The reference client leaves the connections of its per-request transports to
+	// process exit; in-process, thousands of runs would exhaust the descriptor limit.
+	// Once the client has returned, every connection a harness listener accepted is closed.
+	defer vfCloseAcceptedConns()
 	ctx, cancel := context.WithTimeout(context.Background(), 30*time.Second)
 	defer cancel()
 	inR, inW := io.Pipe()
@@ -42,6 +47,89 @@ func vfRunClient(req *conformancev1.ClientCompatRequest) (*conformancev1.ClientC
 		return resp, err
 	case <-time.After(30 * time.Second):
 		return resp, fmt.Errorf("reference client did not exit after EOF on stdin")
+	}
+}
+
+// vfListen opens a loopback listener whose accepted connections are remembered so
+// that vfCloseAcceptedConns can close them between cases.
+func vfListen() (net.Listener, error) {
+	lis, err := net.Listen("tcp", "127.0.0.1:0")
+	if err != nil {
+		return nil, err
+	}
+	return &vfTrackingListener{Listener: lis}, nil
+}
+
+type vfTrackingListener struct{ net.Listener }
+
+var (
+	vfAcceptedMu sync.Mutex
+	vfAccepted   []net.Conn
+)
+
+func (l *vfTrackingListener) Accept() (net.Conn, error) {
+	c, err := l.Listener.Accept()
+	if err == nil {
+		vfAcceptedMu.Lock()
+		vfAccepted = append(vfAccepted, c)
+		vfAcceptedMu.Unlock()
+	}
+	return c, err
+}
+
+// vfVia returns the address of a loopback TCP forwarder in front of host:port. Connections through it
+// (both halves) are closed by vfCloseAcceptedConns, i.e. as soon as the client run that opened them is
+// over; the reference server does not close hijacked h2c connections on shutdown and the reference
+// client never closes its transports, so without this every case leaks two descriptors.
+func vfVia(host string, port uint32) (string, uint32) {
+	upstream := net.JoinHostPort(host, fmt.Sprint(port))
+	vfViaMu.Lock()
+	defer vfViaMu.Unlock()
+	if p, ok := vfViaPorts[upstream]; ok {
+		return "127.0.0.1", p
+	}
+	lis, err := vfListen()
+	if err != nil {
+		return host, port
+	}
+	go func() {
+		for {
+			c, err := lis.Accept()
+			if err != nil {
+				return
+			}
+			go func() {
+				u, err := net.Dial("tcp", upstream)
+				if err != nil {
+					_ = c.Close()
+					return
+				}
+				vfAcceptedMu.Lock()
+				vfAccepted = append(vfAccepted, u)
+				vfAcceptedMu.Unlock()
+				go func() { _, _ = io.Copy(u, c); _ = u.Close() }()
+				_, _ = io.Copy(c, u)
+				_ = c.Close()
+			}()
+		}
+	}()
+	p := uint32(lis.Addr().(*net.TCPAddr).Port)
+	vfViaPorts[upstream] = p
+	return "127.0.0.1", p
+}
+
+var (
+	vfViaMu    sync.Mutex
+	vfViaPorts = map[string]uint32{}
+)
+
+func vfCloseAcceptedConns() {
+	vfAcceptedMu.Lock()
+	conns := vfAccepted
+	vfAccepted = nil
+	vfAcceptedMu.Unlock()
+	for _, c := range conns {
+		_ = c.Close()
 	}
 }
 
